@@ -2,9 +2,13 @@
  * tool's main) against the libraries of the working tree.
  *
  * stdin, one case per line:   <bufsz> <hex sort file | -> <hexpath,hexpath,... | ->
- * stdout, one line per case:  <rc> <hex raw path of initial file #0,#1,... | -> <id:prio:flags,... | ->
+ * stdout, one line per case:  R <hex raw path of initial file #0,#1,... | -> <rc> <id:prio:flags,... | -> F<0|1>
  *   raw path = what fstree_get_path() returns for the node; id = position of the node in
- *   fs->files before fstree_sort_files() ran; the third field is fs->files afterwards.
+ *   fs->files before fstree_sort_files() ran; the fourth field is fs->files afterwards.
+ *   F1: fstree_sort_files left every byte of the fstree_t and of every tree node as it was, except the four things
+ *   the model of the sort stage says it touches (fs->files, next_by_type, data.file.priority / .flags of regular
+ *   files, FLAG_FILE_ALREADY_MATCHED) - the frame of the modelling decision "the sort stage cannot change the tree"
+ *   (Properties_C17.v, remark at tree_unchanged_by_sort_file), checked on the real function.
  * fnmatch() calls of the included code go to libc (same function the model driver binds). */
 #include "config.h"
 #include "mkfs.h"
@@ -35,6 +39,54 @@ static void puthex(const char *s)
 #define MAXN 4096
 static tree_node_t *initial[MAXN];
 
+/* ---- frame check: a digest of everything fstree_sort_files must not touch ---- */
+static uint64_t fnv(uint64_t h, const void *p, size_t n)
+{
+	const unsigned char *c = p;
+	while (n--) { h ^= *c++; h *= 1099511628211ULL; }
+	return h;
+}
+
+static uint64_t digest_node(uint64_t h, const tree_node_t *n)
+{
+	tree_node_t copy;
+	const tree_node_t *c;
+
+	memcpy(&copy, n, sizeof(copy));
+	copy.next_by_type = NULL;
+	copy.flags &= (sqfs_u16)~FLAG_FILE_ALREADY_MATCHED;
+	if (S_ISREG(n->mode)) {
+		copy.data.file.priority = 0;
+		copy.data.file.flags = 0;
+	}
+	h = fnv(h, &n, sizeof(n));		/* the node is where it was */
+	h = fnv(h, &copy, sizeof(copy));
+	h = fnv(h, n->name, strlen(n->name) + 1);
+	if (S_ISREG(n->mode) && n->data.file.input_file != NULL)
+		h = fnv(h, n->data.file.input_file, strlen(n->data.file.input_file) + 1);
+	if (S_ISLNK(n->mode) && n->data.target != NULL)
+		h = fnv(h, n->data.target, strlen(n->data.target) + 1);
+	if (S_ISDIR(n->mode)) {
+		for (c = n->data.children; c != NULL; c = c->next)
+			h = digest_node(h, c);
+	}
+	return h;
+}
+
+static uint64_t digest_fs(const fstree_t *fs)
+{
+	uint64_t h = 14695981039346656037ULL;
+	fstree_t copy;
+	size_t i;
+
+	memcpy(&copy, fs, sizeof(copy));
+	copy.files = NULL;
+	h = fnv(h, &copy, sizeof(copy));
+	for (i = 0; i < fs->unique_inode_count && fs->inodes != NULL; ++i)
+		h = fnv(h, &fs->inodes[i], sizeof(fs->inodes[i]));
+	return digest_node(h, fs->root);
+}
+
 int main(void)
 {
 	static char line[1 << 20], sortbuf[1 << 19], pathbuf[1 << 16];
@@ -43,6 +95,7 @@ int main(void)
 		char *f1, *f2, *f3, *p;
 		size_t n = strlen(line), sortlen, count = 0, i;
 		sqfs_istream_t *mem;
+		uint64_t before, after;
 		fstree_defaults_t fsd;
 		tree_node_t *it;
 		fstree_t fs;
@@ -101,7 +154,9 @@ int main(void)
 			free(path);
 		}
 
+		before = digest_fs(&fs);
 		rc = fstree_sort_files(&fs, mem);
+		after = digest_fs(&fs);
 		sqfs_drop(mem);
 
 		printf(" %d ", rc);
@@ -112,7 +167,7 @@ int main(void)
 			printf("%s%zu:%" PRId64 ":%d", it == fs.files ? "" : ",", i,
 			       (int64_t)it->data.file.priority, it->data.file.flags);
 		}
-		putchar('\n');
+		printf(" F%d\n", before == after);
 		fflush(stdout);
 		fstree_cleanup(&fs);
 	}
